@@ -1,5 +1,138 @@
-"""Checker self-test (mutant/twin catalogue).  Filled in later; see DESIGN section 6."""
+"""Checker self-test, run by the thorough tier.
+
+For the property being checked, every recorded seeded change (/verif/seeded/<name>, a change that breaks the property
+while the repository's tests still pass) and every recorded behaviour-preserving refactoring (/verif/twins/<name>) is
+applied to a scratch copy of /repo's *current working tree* and the quick check of that property is run on the copy:
+a seeded change must be reported as recorded in its `expect.json` (VIOLATION, or a documented miss), a refactoring must
+not be reported.  The copies live outside /repo and /verif and are removed.  The self-test never changes the verdict
+about /repo itself: it measures the checker, and its outcome is written into the evidence file."""
+import json
+import os
+import shutil
+import subprocess
+import sys
+import tempfile
+from concurrent.futures import ThreadPoolExecutor
+
+VERIF = os.path.dirname(os.path.dirname(os.path.abspath(__file__)))
 
 
-def run_for_property(pid, seed):
+def _scratch():
+    base = '/dev/shm' if os.path.isdir('/dev/shm') and os.access('/dev/shm', os.W_OK) else tempfile.gettempdir()
+    return tempfile.mkdtemp(prefix='emsa_selftest_', dir=base)
+
+
+def _copy_tree(repo, dst):
+    """the working tree of repo (tracked and untracked python sources), without .git"""
+    def ignore(d, names):
+        return [n for n in names if n in ('.git', '__pycache__', '.pytest_cache', 'node_modules') or n.endswith('.pyc')]
+    shutil.copytree(repo, dst, ignore=ignore, symlinks=True)
+
+
+def _one(args):
+    kind, name, pid, repo = args
+    d = os.path.join(VERIF, 'seeded' if kind == 'seed' else 'twins', name)
+    tmp = _scratch()
+    out = {'kind': kind, 'name': name}
+    try:
+        wt = os.path.join(tmp, 'repo')
+        _copy_tree(repo, wt)
+        r = subprocess.run(['git', 'apply', '--whitespace=nowarn', os.path.join(d, 'patch.diff')], cwd=wt, capture_output=True, text=True)
+        if r.returncode:
+            r = subprocess.run(['patch', '-p1', '-s', '-f', '-i', os.path.join(d, 'patch.diff')], cwd=wt, capture_output=True, text=True)
+        if r.returncode:
+            out['status'] = 'skipped'
+            out['why'] = 'patch does not apply to the current tree'
+            return out
+        env = dict(os.environ)
+        env['EMSA_NO_EVIDENCE'] = '1'
+        env.pop('EMSA_REPO', None)
+        r = subprocess.run([sys.executable, '-m', 'emsa.run', '--property', pid, '--tier', 'quick', '--repo', wt], cwd=VERIF, env=env,
+                           capture_output=True, text=True, timeout=900)
+        lines = r.stdout.splitlines()
+        out['exit'] = r.returncode
+        out['rules'] = sorted({l.split('  ')[1].strip() for l in lines if l.startswith('emmet/') and '  ' in l})
+        out['undecided'] = sum(1 for l in lines if l.startswith('UNDECIDED'))
+        out['status'] = {0: 'silent', 1: 'reported', 2: 'cannot-decide'}.get(r.returncode, 'cannot-decide')
+        return out
+    except Exception as e:          # the self-test must never break the check
+        out['status'] = 'skipped'
+        out['why'] = '%s: %s' % (type(e).__name__, e)
+        return out
+    finally:
+        shutil.rmtree(tmp, ignore_errors=True)
+
+
+def catalogue(pid):
+    items = []
+    sd = os.path.join(VERIF, 'seeded')
+    for name in sorted(os.listdir(sd)) if os.path.isdir(sd) else []:
+        mp = os.path.join(sd, name, 'meta.json')
+        if not os.path.exists(mp) or not os.path.exists(os.path.join(sd, name, 'patch.diff')):
+            continue
+        try:
+            meta = json.load(open(mp))
+        except Exception:
+            continue
+        if meta.get('property') == pid:
+            items.append(('seed', name))
+    td = os.path.join(VERIF, 'twins')
+    for name in sorted(os.listdir(td)) if os.path.isdir(td) else []:
+        if name.startswith(pid + '-') or name.startswith(pid + 'b-'):
+            if os.path.exists(os.path.join(td, name, 'patch.diff')):
+                items.append(('twin', name))
+    return items
+
+
+def run_for_property(pid, seed, repo=None):
+    from .core import REPO
+    repo = repo or REPO
+    items = catalogue(pid)
+    if not items:
+        return 0
+    with ThreadPoolExecutor(min(16, len(items))) as ex:
+        results = list(ex.map(_one, [(k, n, pid, repo) for k, n in items]))
+    summary = {'seeded_reported': 0, 'seeded_missed': 0, 'seeded_unexpected': [], 'twins_silent': 0, 'twins_reported': [], 'skipped': 0, 'cannot_decide': 0}
+    for r in results:
+        exp = {}
+        ep = os.path.join(VERIF, 'seeded' if r['kind'] == 'seed' else 'twins', r['name'], 'expect.json')
+        if os.path.exists(ep):
+            try:
+                exp = json.load(open(ep))
+            except Exception:
+                exp = {}
+        r['expected'] = exp.get('status')
+        if r['status'] == 'skipped':
+            summary['skipped'] += 1
+            continue
+        if r['status'] == 'cannot-decide':
+            summary['cannot_decide'] += 1
+        if r['kind'] == 'seed':
+            if r['status'] == 'reported':
+                summary['seeded_reported'] += 1
+            else:
+                summary['seeded_missed'] += 1
+            if exp.get('status') and exp['status'] != r['status']:
+                summary['seeded_unexpected'].append(r['name'])
+        else:
+            if r['status'] == 'reported':
+                summary['twins_reported'].append(r['name'])
+            else:
+                summary['twins_silent'] += 1
+    print('SELF-TEST %s: %d seeded changes reported, %d not reported (documented misses), %d refactorings silent, %d refactorings reported, %d skipped, %d cannot-decide'
+          % (pid, summary['seeded_reported'], summary['seeded_missed'], summary['twins_silent'], len(summary['twins_reported']), summary['skipped'], summary['cannot_decide']))
+    for n in summary['seeded_unexpected']:
+        print('SELF-TEST-NOTE %s: seeded change %s is no longer handled as recorded in its expect.json' % (pid, n))
+    for n in summary['twins_reported']:
+        print('SELF-TEST-NOTE %s: behaviour-preserving refactoring %s is reported: the check would raise a false alarm on it' % (pid, n))
+    # append to the evidence of this run
+    ev_path = os.path.join(VERIF, 'evidence', pid + '.json')
+    if os.path.exists(ev_path) and not os.environ.get('EMSA_NO_EVIDENCE'):
+        try:
+            ev = json.load(open(ev_path))
+            ev.setdefault('coverage', {})['self_test'] = {'summary': summary, 'items': results,
+                                                         'method': 'each recorded change applied to a scratch copy of the current working tree; quick check of this property run on the copy'}
+            json.dump(ev, open(ev_path, 'w'), indent=1, default=str)
+        except Exception:
+            pass
     return 0
